@@ -312,6 +312,12 @@ int main()
                 }
                 catch (const std::runtime_error&) { o << "throw"; }
             }
+            else if (t[0] == "schur")
+            {
+                // schur <n> <H n*n col-major>: T and U of UpperHessenbergSchur<double>, or throw
+                Reader r(t, 1); long n = r.integer(); Mat H = r.mat(n, n);
+                try { UpperHessenbergSchur<double> s(H); put(o, s.matrix_T()); put(o, s.matrix_U()); } catch (const std::runtime_error&) { o << "throw"; }
+            }
             else if (t[0] == "pred_eig")
             {
                 Reader r(t, 2); long n = r.integer(); Mat H = r.mat(n, n);
